@@ -47,7 +47,7 @@ ChkS(tr, ll, what, diag) ==
 Files(hp, ids) == [i \in 1..Len(ids) |-> hp[ids[i]]]
 
 \* operations whose result carries attributes / dtype unchanged ("full")
-FullOps == {"copy", "slice", "stack", "subset", "renamevar", "renamedim",
+FullOps == {"copy", "slice", "stack", "subset", "renamevar", "renamedim", "renamedims",
             "rmsingle", "insertdim", "reorder"}
 
 InDomain(e, hp) ==
@@ -59,6 +59,7 @@ InDomain(e, hp) ==
     [] e.act = "subset" -> Dom_subset(f, a)
     [] e.act = "renamevar" -> Dom_renamevar(f, a)
     [] e.act = "renamedim" -> Dom_renamedim(f, a)
+    [] e.act = "renamedims" -> Dom_renamedims(f, a)
     [] e.act = "rmsingle" -> Dom_rmsingle(f, a)
     [] e.act = "insertdim" -> Dom_insertdim(f, a)
     [] e.act = "reorder" -> Dom_reorder(f, a)
@@ -72,6 +73,7 @@ Decidable(e, hp) ==
   CASE e.act = "apply" -> Dec_apply(f, a)
     [] e.act = "arith" -> Dec_arith(Files(hp, <<e.src>> \o e.others), a)
     [] e.act = "eval" -> Dec_eval(f, a)
+    [] e.act = "mask" -> Dec_mask(f, a)
     [] OTHER -> TRUE
 
 ResultDiff(e, hp, g) ==
@@ -83,6 +85,7 @@ ResultDiff(e, hp, g) ==
     [] e.act = "subset" -> FileDiff(g, Exp_subset(f, a), "full")
     [] e.act = "renamevar" -> FileDiff(g, Exp_renamevar(f, a), "full")
     [] e.act = "renamedim" -> FileDiff(g, Exp_renamedim(f, a), "full")
+    [] e.act = "renamedims" -> FileDiff(g, Exp_renamedims(f, a), "full")
     [] e.act = "rmsingle" -> FileDiff(g, Exp_rmsingle(f, a), "full")
     [] e.act = "insertdim" -> FileDiff(g, Exp_insertdim(f, a), "full")
     [] e.act = "reorder" -> FileDiff(g, Exp_reorder(f, a, g), "full")
